@@ -1,0 +1,33 @@
+//go:build verif
+
+package rueidis
+
+import "github.com/redis/rueidis/internal/cmds"
+
+// Export wrappers for the pipe-observation family of the verification harness (properties C01 C26 C27 C33).
+
+// VerifMsgView exposes the raw shape of a RedisMessage so that the harness can render a reply tree canonically and
+// compare it with what the fake server sent: the RESP type byte, the text (strings, errors, doubles, big numbers),
+// the integer (integers, booleans) and the children (arrays, sets, maps as alternating key/value, pushes).
+func VerifMsgView(m RedisMessage) (typ byte, str string, n int64, vals []RedisMessage) {
+	switch m.typ {
+	case typeArray, typeMap, typeSet, typePush:
+		return m.typ, "", 0, m.values()
+	case typeInteger, typeBool:
+		return m.typ, "", m.intlen, nil
+	case typeNull, 0:
+		return m.typ, "", 0, nil
+	}
+	return m.typ, m.string(), 0, nil
+}
+
+// VerifQueueType reports which queue implementation newly created pipes use (read from the environment in init).
+func VerifQueueType() string {
+	if queueTypeFromEnv == queueTypeFlowBuffer {
+		return "flowbuffer"
+	}
+	return "ring"
+}
+
+// VerifBuilder returns a command builder like the one of a single (non-cluster) client.
+func VerifBuilder() Builder { return cmds.NewBuilder(cmds.NoSlot) }
